@@ -2,4 +2,5 @@ package lab
 
 import (
 	_ "verif/lab/codec"
+	_ "verif/lab/srvlab"
 )
